@@ -52,7 +52,7 @@ pub fn poly_finalize_stub(_s: &mut Poly1305, output: &mut [u8]) {
 pub fn scalarmult_stub(q: &mut [u8; 32], n: &[u8; 32], p: &[u8; 32]) {
     unsafe {
         let k = AES.sm_n;
-        assert!(k < 2, "SM_CALLS: more scalar multiplications than the harness expects");
+        assert!(k < 4, "SM_CALLS: more scalar multiplications than the harness expects");
         AES.sm_scalar[k] = *n;
         AES.sm_point[k] = *p;
         let out: [u8; 32] = if AES.sm_fixed { AES.sm_fixed_out } else { kani::any() };
@@ -114,9 +114,9 @@ pub struct AeadState {
     pub mac_len: [usize; MAC_INST],
     pub mac_out: [[u8; 16]; MAC_INST],
     pub sm_n: usize,
-    pub sm_scalar: [[u8; 32]; 2],
-    pub sm_point: [[u8; 32]; 2],
-    pub sm_out: [[u8; 32]; 2],
+    pub sm_scalar: [[u8; 32]; 4],
+    pub sm_point: [[u8; 32]; 4],
+    pub sm_out: [[u8; 32]; 4],
     pub smb_n: usize,
     pub smb_scalar: [[u8; 32]; 2],
     pub smb_out: [[u8; 32]; 2],
@@ -136,9 +136,9 @@ pub static mut AES: AeadState = AeadState {
     mac_len: [0; MAC_INST],
     mac_out: [[0; 16]; MAC_INST],
     sm_n: 0,
-    sm_scalar: [[0; 32]; 2],
-    sm_point: [[0; 32]; 2],
-    sm_out: [[0; 32]; 2],
+    sm_scalar: [[0; 32]; 4],
+    sm_point: [[0; 32]; 4],
+    sm_out: [[0; 32]; 4],
     smb_n: 0,
     smb_scalar: [[0; 32]; 2],
     smb_out: [[0; 32]; 2],
